@@ -349,6 +349,21 @@ func (x *Exec) callMods(fr *Frame, c *ssa.CallCommon, ms *ModSet, depth int) {
 
 func (x *Exec) unknownCallMods(c *ssa.CallCommon, ms *ModSet) {
 	for _, a := range x.callArgValues(c) {
+		// an interface built here from a pointer: the callee can write through it
+		for {
+			if mi, ok := a.(*ssa.MakeInterface); ok {
+				a = mi.X
+				continue
+			}
+			if ci, ok := a.(*ssa.ChangeInterface); ok {
+				a = ci.X
+				continue
+			}
+			break
+		}
+		if _, isIface := a.Type().Underlying().(*types.Interface); isIface {
+			x.assume1("objects behind interface-typed arguments of un-contracted calls are assumed unchanged by the call")
+		}
 		switch t := a.Type().Underlying().(type) {
 		case *types.Slice:
 			x.addTypeStoreMods(ms, AKElem, nil, 0, t.Elem())
@@ -367,7 +382,7 @@ func (x *Exec) callArgValues(c *ssa.CallCommon) []ssa.Value {
 
 // havoc replaces everything in ms by unconstrained values.
 func (x *Exec) havoc(fr *Frame, st *State, ms *ModSet, prefix string) {
-	for id := range ms.cells {
+	for _, id := range sortedInts(ms.cells) {
 		if v, ok := st.cells[id]; ok {
 			var nv Val
 			var f string
@@ -382,19 +397,21 @@ func (x *Exec) havoc(fr *Frame, st *State, ms *ModSet, prefix string) {
 		}
 	}
 	if ms.all {
-		for n, s := range x.heapSorts {
+		for _, n := range sortedKeys(x.heapSorts) {
 			if strings.HasPrefix(n, "G$") {
 				continue
 			}
-			st.heap[n] = x.vc.Declare(n+"@"+prefix, s)
+			st.heap[n] = x.vc.Declare(n+"@"+prefix, x.heapSorts[n])
 		}
 		x.havocAllSeen = true
 	}
-	for n, s := range ms.heap {
+	for _, n := range sortedKeys(ms.heap) {
+		s := ms.heap[n]
 		x.heapVar(n, s)
 		st.heap[n] = x.vc.Declare(n+"@"+prefix, s)
 	}
-	for n, cs := range ms.cellPts {
+	for _, n := range sortedKeys(ms.cellPts) {
+		cs := ms.cellPts[n]
 		if _, whole := ms.heap[n]; whole || ms.all {
 			continue
 		}
@@ -415,7 +432,8 @@ func (x *Exec) havoc(fr *Frame, st *State, ms *ModSet, prefix string) {
 			ms.points[n] = append(ms.points[n], st.cells[c].L[0])
 		}
 	}
-	for n, refs := range ms.points {
+	for _, n := range sortedKeys(ms.points) {
+		refs := ms.points[n]
 		if _, whole := ms.heap[n]; whole || ms.all {
 			continue
 		}
